@@ -13,6 +13,7 @@ import (
 	"os"
 	"testing"
 
+	"grog/internal/config"
 	"grog/internal/dag"
 	"grog/internal/label"
 	"grog/internal/model"
@@ -90,6 +91,10 @@ func c11handle(req map[string]any) any {
 				return map[string]any{"r": "error"}
 			}
 			return map[string]any{"r": r}
+		case "resolveout":
+			config.Global.WorkspaceRoot = c11b2s(req["ws"])
+			t := &model.Target{Label: label.TargetLabel{Package: c11b2s(req["pkg"])}}
+			return map[string]any{"r": c11s2b(resolvedOutputPath(t, c11b2s(req["out"])))}
 		case "cleanout":
 			t := &model.Target{Label: label.TargetLabel{Package: c11b2s(req["pkg"])}}
 			return map[string]any{"r": c11s2b(cleanOutputPath(t, c11b2s(req["out"])))}
